@@ -16,6 +16,12 @@ RANGES = dict(gi=(0, 1), a=(0, 8), b=(-2, 4), c=(-1, 3), d=(0, 12))
 RANGES_K2 = dict(gi=(0, 1), a=(0, 5), b=(-1, 2), c=(-1, 1), d=(0, 12))  # two-step histories: smaller payload ranges
 
 
+RANGES_IO = dict(gi=(0, 1), a=(0, 3), b=(0, 1), c=(2, 3), d=(0, 3))   # multi-element slice/extend first, then a removal from inputs/outputs
+IO_OPS = [i for i, o in enumerate(irlib.OPS) if o in ("in.pop", "in.remove", "in.delitem", "in.clear", "out.pop", "out.remove", "out.delitem", "out.clear")]
+IO_SEEDS = [3, 4, 7]   # the seeds in which a value is listed several times / was listed before
+MULTI_OPS = [i for i, o in enumerate(irlib.OPS) if o in ("in.setslice2", "out.setslice2", "in.extend3", "out.extend3")]
+
+
 def body_for(seed, ops_fixed, k):
     def body(P):
         st = irlib.seed(seed)
@@ -52,17 +58,22 @@ def make_case(tier, key):
         body = body_for(seed, [op], 1)
     else:
         _, seed, op, sub = key
-        subops = irlib.COLLECTION_OPS if sub == "coll" else irlib.NODE_OPS
-        ranges = {f"{p}{i}": r for i in (0, 1) for p, r in RANGES_K2.items()}
+        subops = irlib.COLLECTION_OPS if sub == "coll" else (IO_OPS if sub == "io" else irlib.NODE_OPS)
+        ranges = {f"{p}{i}": r for i in (0, 1) for p, r in (RANGES_IO if sub == "io" else RANGES_K2).items()}
         ranges["o1"] = (0, len(subops) - 1)
         name = f"k2[seed {seed}: {irlib.OPS[op]} ; any {sub} op]"
         inner = body_for(seed, [op], 2)
+
+        if sub == "io":
+            ranges.update(gi1=(0, 0), c1=(0, 0), d1=(0, 0), b1=(0, 1))
 
         def body(P, inner=inner, subops=subops):
             import operator
 
             Q = dict(P)
             Q["o1"] = subops[operator.index(P["o1"])]
+            if sub == "io":
+                Q["gi1"] = P["gi0"]
             return inner(Q)
 
     def sig(args, obs):
@@ -76,6 +87,8 @@ def make_case(tier, key):
 
 def keys_for(tier):
     keys = [("k1", s, o) for s in range(irlib.N_SEEDS) for o in range(irlib.N_OPS)]
+    # values listed several times: a multi-element slice assignment / extend followed by any inputs/outputs operation
+    keys += [("k2", s, o, "io") for s in IO_SEEDS for o in MULTI_OPS]
     if tier == "thorough":
         for s in range(irlib.N_SEEDS):
             keys += [("k2", s, o, "coll") for o in irlib.COLLECTION_OPS]
@@ -95,7 +108,7 @@ def run(chk, tier):
         "exceptions of the documented kinds raised by a step are swallowed; the invariant is evaluated regardless",
         "every explored path is re-executed natively with the path's witness and must give the same observation (guard against proxy intolerance)",
     )
-    chk.bounds = dict(history_length="1 (every operation from every seed)" + ("; 2 with the second operation symbolic inside the collection / node sub-alphabet" if tier == "thorough" else ""),
+    chk.bounds = dict(history_length="1 (every operation from every seed); 2 for a multi-element slice assignment/extend followed by any inputs/outputs operation" + ("; 2 with the second operation symbolic inside the collection / node sub-alphabet" if tier == "thorough" else ""),
                       seeds=irlib.N_SEEDS, operations=irlib.N_OPS, parameters=RANGES, parameters_two_step=RANGES_K2)
     chk.not_decided += ["histories longer than the bound; more than 2 graphs / 5 nodes / 9 values", "Function wrappers (they delegate to Graph)"]
     hist.run_cases(chk, "harness.C01", "make_case", keys_for(tier))
